@@ -176,7 +176,7 @@ Section Policies.
         destruct (match frag with Some f => f | None => (b_opcode b0, b_rsv1 b0 && s_compress c, [], 0) end) as [[[typ comp] acc] total0].
         destruct (two63 <=? total0 + len); [destruct (lax P VMsgLen63); discriminate|].
         destruct ((0 <? s_limit c) && (s_limit c <? total0 + len)); [discriminate|].
-        destruct (take_n len bs3) as [[pl bs4]|] eqn:T; [|destruct (dtrip c comp (acc ++ unmask c key bs3)); discriminate].
+        destruct (take_n len bs3) as [[pl bs4]|] eqn:T; [|destruct (dtrip c comp (at_eof (acc ++ unmask c key bs3))); discriminate].
         pose proof (take_n_rest_length _ _ _ _ T).
         destruct (b_fin b0).
         + unfold complete in H'. destruct (dtrip c comp (acc ++ unmask c key pl)); [discriminate|].
@@ -256,7 +256,7 @@ Section Policies.
               destruct (two63 <=? total0 + len); [destruct (lax P VMsgLen63); inversion Hb; eexists; (split; [|reflexivity]); discriminate|].
               destruct ((0 <? s_limit c) && (s_limit c <? total0 + len)); [inversion Hb; eexists; split; [|reflexivity]; discriminate|].
               destruct (take_n len bs3) as [[pl bs4]|];
-                [|destruct (dtrip c comp (acc ++ unmask c key bs3)); inversion Hb; eexists; (split; [|reflexivity]); discriminate].
+                [|destruct (dtrip c comp (at_eof (acc ++ unmask c key bs3))); inversion Hb; eexists; (split; [|reflexivity]); discriminate].
               destruct (b_fin b0);
                 [|destruct (dtrip c comp (acc ++ unmask c key pl)); [inversion Hb; eexists; split; [|reflexivity]; discriminate|discriminate]].
               unfold complete, check in Hb.
@@ -461,7 +461,7 @@ Proof.
       - rewrite Hinv in Hf. destruct (b_opcode b0 =? 0); [discriminate|]. simpl in Hdata. rewrite Hdata. eauto. }
     destruct Hstart as [typ [dc [acc ->]]].
     destruct (take_n len bs3) as [[pl bs4]|] eqn:TP;
-      [|destruct (gtrip cfg dc (acc ++ (if rc_server cfg then xor_mask key 0 bs3 else bs3))); reflexivity].
+      [|destruct (gtrip cfg dc (at_eof (acc ++ (if rc_server cfg then xor_mask key 0 bs3 else bs3)))); reflexivity].
     pose proof (take_n_rest_length _ _ _ _ TP).
     simpl g_final. destruct (b_fin b0).
     + pose proof (deliver_clean cfg infl typ dc (acc ++ (if rc_server cfg then xor_mask key 0 pl else pl))) as DC.
